@@ -38,7 +38,7 @@ def main(argv: List[str]) -> int:
     for seed, doc in ds:
         for fseed, pinned in docs.form_plan(nrand, False, seed):
             tid += 1
-            items[tid] = {'tid': tid, 'doc': doc, 'allow': False, 'want': 'links', 'fseed': fseed, 'pinned': pinned,
+            items[tid] = {'tid': tid, 'doc': doc, 'allow': tid % 3 == 0, 'want': 'links', 'fseed': fseed, 'pinned': pinned,
                           'seed': seed, 'gen': 'RandDoc'}
     # the exhaustive per-element products of GenProduct.tla (every kind x addressing mode x arity of reference, every enum
     # binding, groups): links of each
@@ -48,7 +48,7 @@ def main(argv: List[str]) -> int:
         nprod += len(ps)
         for pid, doc in ps:
             tid += 1
-            items[tid] = {'tid': tid, 'doc': doc, 'allow': False, 'want': 'links', 'fseed': None, 'pinned': {}, 'seed': pid, 'gen': 'GenProduct'}
+            items[tid] = {'tid': tid, 'doc': doc, 'allow': tid % 3 == 0, 'want': 'links', 'fseed': None, 'pinned': {}, 'seed': pid, 'gen': 'GenProduct'}
     rep.notes['product_documents'] = nprod
     res = docs.run_items(list(items.values()), rep, 'C05')
     doccheck.judge('C05', rep, res, items, lambda it: has_link(it['doc']))
